@@ -276,8 +276,16 @@ def run(ctx):
             eq = any(p and t.replace(' ', '') in ('%s.residue_type==%s' % (group_var, ov),
                                                   '%s==%s.residue_type' % (ov, group_var))
                      for t, p in facts for ov in order_vars)
-            ok = any('write_out_order' in i for i in its) and eq and \
-                not any(isinstance(n, (ast.Break, ast.Continue)) for l in lps for n in ast.walk(l))
+            # nothing else decides: the equality is the only condition on the way
+            # to the call (an early `continue` shows up as a condition) and no
+            # loop is left early
+            def is_eq(t):
+                return any(t.replace(' ', '') in ('%s.residue_type==%s' % (group_var, ov),
+                                                  '%s==%s.residue_type' % (ov, group_var))
+                           for ov in order_vars)
+            only = all(p and is_eq(t) for t, p in facts)
+            ok = any('write_out_order' in i for i in its) and eq and only and \
+                not any(isinstance(n, ast.Break) for l in lps for n in ast.walk(l))
         ctx.ob('C01.R4', 'section:' + qual, ok,
                '%s prints every group whose residue type equals the current write-out entry, '
                'once per entry' % qual, out, calls[0] if calls else f)
